@@ -748,6 +748,7 @@ Proof.
     unfold accepts. cbn [sts]. unfold arun in *. cbn [fold_left astep]. rewrite H. reflexivity.
   - destruct en; reflexivity.
   - destruct en; reflexivity.
+  - destruct en; reflexivity.
 Qed.
 
 Theorem active_after_first_byte en ad rd :
@@ -758,6 +759,7 @@ Proof.
     rewrite loop_active by auto.
     destruct (snd (serve_loop F cfg E (S (length (remaining rd))) (lst_init rd))); cbn; auto.
     destruct (keep_hijacked cfg); reflexivity.
+  - destruct en; reflexivity.
   - destruct en; reflexivity.
   - destruct en; reflexivity.
 Qed.
@@ -819,6 +821,7 @@ Proof.
   - rewrite serve_conn_admit, Hst. apply loop_pred. apply lst_init_inv.
   - cbn. apply P_err; try reflexivity. apply P_nil_like; reflexivity.
   - destruct en; cbn; rewrite ?Hst; (apply P_err; [reflexivity|reflexivity|]); rewrite ?Hst; apply P_nil_like; reflexivity.
+  - destruct en; cbn; rewrite ?Hst; apply P_nil_like; reflexivity.
 Qed.
 End TracePred.
 
@@ -893,6 +896,7 @@ Theorem hijack_shape en ad rd src hb hcs :
 Proof.
   destruct ad.
   2:{ cbn. intros H. repeat (destruct H as [H|H]; [discriminate|]). destruct H. }
+  2:{ destruct en; cbn; intros H; repeat (destruct H as [H|H]; [discriminate|]); destruct H. }
   2:{ destruct en; cbn; intros H; repeat (destruct H as [H|H]; [discriminate|]); destruct H. }
   rewrite serve_conn_admit. destruct (lst_init_inv rd) as (I1 & I2 & I3).
   set (fuel := S (length (remaining rd))).
@@ -975,6 +979,7 @@ Proof.
   (* Close is only produced by after_loop LExit / the rejections: not in a hijacked run *)
   destruct ad.
   2:{ exfalso. cbn in H0. repeat (destruct H0 as [H0|H0]; [discriminate|]). destruct H0. }
+  2:{ exfalso. destruct en; cbn in H0; repeat (destruct H0 as [H0|H0]; [discriminate|]); destruct H0. }
   2:{ exfalso. destruct en; cbn in H0; repeat (destruct H0 as [H0|H0]; [discriminate|]); destruct H0. }
   clear Heq. rewrite serve_conn_admit in *.
   assert (Hnc : forall fuel s, ~ In Close (fst (serve_loop F cfg E fuel s))).
